@@ -211,6 +211,12 @@ func (it *Interp) deepClone(v Value, seen map[*Cell]*Cell) Value {
 			n.Amt[k] = a
 		}
 		return n
+	case *DecCoinsV:
+		n := &DecCoinsV{Amt: map[string]Value{}}
+		for k, a := range x.Amt {
+			n.Amt[k] = a
+		}
+		return n
 	}
 	return v
 }
